@@ -321,6 +321,45 @@ def validate(ctx, recs, label):
     return path
 
 
+def subsecond(col, seed):
+    """Time stamps with a sub-second part: one side of a tick-aligned scenario is shifted by a fraction of a second and
+    max_interval is placed in the gap the shift opens (I ticks + 3/4 s).  The pair law of CollocProps - |t_p - t_s| <
+    max_interval, strictly - is evaluated on the exact rational times; with a shift of half a second every |dt| is a whole
+    number of ticks +- 1/2 s, at least 1/4 s away from the threshold on either side."""
+    import random
+    from fractions import Fraction as F
+    from typhon.collocations import Collocator
+    rng = random.Random(seed)
+    emb = ring.embeddings(8)[rng.choice(["equator", "meridian", "tilted"])]
+    P = [(rng.randrange(0, 6), rng.randrange(8)) for _ in range(rng.choice([3, 8, 20]))]
+    S = [(rng.randrange(0, 6), rng.randrange(8)) for _ in range(rng.choice([3, 8, 20]))]
+    I = rng.choice([1, 2, 3])
+    shift_side, shift_ms = rng.choice([("P", -500), ("S", -500), ("P", 500), ("S", 500)])
+    dp, ds = cm.dataset(P, emb), cm.dataset(S, emb)
+    (dp if shift_side == "P" else ds)["time"].values[:] += np.timedelta64(shift_ms, "ms")
+    thr = F(I * cm.TICK_S) + F(3, 4)
+    sh = F(shift_ms, 1000)
+    exp = sorted([i + 1, j + 1] for i, p in enumerate(P) for j, q in enumerate(S) if p[1] == q[1]
+                 and abs((p[0] - q[0]) * cm.TICK_S + (sh if shift_side == "P" else -sh)) < thr)
+    rep = {"abstract": {"P": P, "S": S, "I_ticks": I, "shift": [shift_side, shift_ms], "max_interval_s": float(thr)}}
+    try:
+        res = Collocator().collocate(dp, ds, max_interval=float(thr), max_distance=cm.distance_arg(0, 8, 0))
+    except Exception as ex:
+        col.violation("collocate-raises-" + type(ex).__name__ + "-subsecond", dict(rep, observed=repr(ex)[:300]))
+        return
+    col.count(1)
+    if res is None:
+        got = []
+    else:
+        pr = res["Collocations/pairs"].values
+        got = sorted([int(a), int(b)] for a, b in zip(res["primary/id"].values[pr[0]], res["secondary/id"].values[pr[1]]))
+    if got != exp:
+        missing = [x for x in exp if x not in got]
+        col.violation("subsecond-pairs-" + ("missing" if missing else "surplus"), dict(rep, expected=exp, observed=got))
+    elif exp:
+        col.nontrivial.add(("subsecond", seed))
+
+
 def run(ctx):
     quick = ctx.tier == "quick"
     ctx.rule = ("TLC enumerates pairs of small point datasets (<=3 points, <<tick, ring position or NaN>>) and the oracle "
@@ -353,6 +392,7 @@ def run(ctx):
     infl = [(c, n, 5) for n, c in enumerate(cases) if any(r[4] and r[0] >= 1 and r[1] <= 1 for r in c["rows"])]
     infl = infl[:24] if quick else infl[:400]
     pmap(ctx, replay_inflated, infl, chunk=2)
+    pmap(ctx, subsecond, [ctx.seed * 1000 + i for i in range(40 if quick else 600)], chunk=5)
     if not ctx.notes.get("inflated_calls") and not ctx.violations:
         raise MachineryError("the pre-binned path was never exercised")
     n_hist, n_cloud = (60, 30) if quick else (600, 300)
